@@ -28,6 +28,27 @@ EXIT = ("exit",)
 RAISE = ("raise",)
 
 
+def _cannot_raise(st: ast.AST) -> bool:
+    """break / continue / pass, and the binding of a constant to a plain local name"""
+    if isinstance(st, (ast.Break, ast.Continue, ast.Pass)):
+        return True
+    if isinstance(st, ast.Assign) and isinstance(st.value, ast.Constant) and all(isinstance(t, ast.Name) for t in st.targets):
+        return True
+    if isinstance(st, (ast.If, ast.While)):
+        # a header test made of local names, constants, identity tests and and/or/not (no call, attribute, subscript,
+        # arithmetic or rich comparison - those may run user code)
+        for n in ast.walk(st.test):
+            if isinstance(n, (ast.Name, ast.Constant, ast.BoolOp, ast.And, ast.Or, ast.Not, ast.Load, ast.Is, ast.IsNot)):
+                continue
+            if isinstance(n, ast.UnaryOp) and isinstance(n.op, ast.Not):
+                continue
+            if isinstance(n, ast.Compare) and all(isinstance(o, (ast.Is, ast.IsNot)) for o in n.ops):
+                continue
+            return False
+        return True
+    return False
+
+
 class CFG:
     def __init__(self, fn: ast.AST):
         self.fn = fn
@@ -80,8 +101,8 @@ class CFG:
         return preds
 
     def _stmt(self, st: ast.stmt, preds: List[Tuple]) -> List[Tuple]:
-        # exceptional edge from the point before the statement
-        if self._handlers:
+        # exceptional edge from the point before the statement (not for statements that cannot raise)
+        if self._handlers and not _cannot_raise(st):
             for h in self._handlers[-1]:
                 self._connect(preds, h)
         if isinstance(st, ast.If):
